@@ -16,12 +16,15 @@ EXTENDS Naturals, Sequences, FiniteSets
 
 (* coroWait / coroSlow: coroutines that are still running when the owner's loop is force-stopped (the second one needs several *)
 (* loop iterations of clean-up while being cancelled)                                                                       *)
-Kinds == {"coroVal", "coroRaise", "plainNone", "plainVal", "plainRaise", "notCallable", "coroWait", "coroSlow"}
+(* plainZero / plainFalse / plainEmpty: plain methods returning 0 / False / an empty bytes object - values all the same              *)
+Kinds == {"coroVal", "coroRaise", "plainNone", "plainVal", "plainRaise", "notCallable", "coroWait", "coroSlow",
+          "plainZero", "plainFalse", "plainEmpty"}
+PlainValued == {"plainVal", "plainZero", "plainFalse", "plainEmpty"}
 IsCoro(k) == k \in {"coroVal", "coroRaise", "coroWait", "coroSlow"}
 
 (* what the body produces when it runs *)
 BodyOutcome(k) == CASE k \in {"coroVal", "coroWait", "coroSlow"} -> "val" [] k = "coroRaise" -> "exc" [] k = "plainNone" -> "none"
-                    [] k = "plainVal" -> "val" [] k = "plainRaise" -> "exc" [] OTHER -> "none"
+                    [] k \in PlainValued -> "val" [] k = "plainRaise" -> "exc" [] OTHER -> "none"
 
 (* Invoke: the caller's side of proxy.method(...) up to the point where it returns to the caller *)
 (* result: [st, execOn, ret, enq]                                                                *)
@@ -35,4 +38,9 @@ InvokeResult(kind, src, owner) ==
 
 (* what a coroutine caller finally receives once the owner has run the body *)
 Relayed(kind) == BodyOutcome(kind)
+
+(* a plain method called from another loop "must return nothing": nobody is there to take a value, so when the queued body hands  *)
+(* one back - whatever the value, also 0, False or an empty object - the owner's loop reports a TypeError for that call; a plain   *)
+(* body that raises is reported with its exception; nothing is reported otherwise                                                  *)
+Reported(kind) == CASE kind \in PlainValued -> "typeerror" [] kind = "plainRaise" -> "exc" [] OTHER -> "none"
 =============================================================================
